@@ -21,10 +21,16 @@ Apply(kind, v, t, f) ==
   CASE f = "aeqb" -> IF a # Gone /\ b # Gone THEN <<b, b>> ELSE v
     [] f = "beqa" -> IF a # Gone /\ b # Gone THEN <<a, a>> ELSE v
     [] f = "aeqa" -> v                                     \* self-assignment changes nothing
-    [] f = "wa" -> IF a # Gone /\ kind # "ptr" THEN <<Append(a, Wr(t)), b>> ELSE v
-    [] f = "wb" -> IF b # Gone /\ kind # "ptr" THEN <<a, Append(b, Wr(t))>> ELSE v
+    [] f = "wa" -> IF a # Gone /\ kind # "ptr" THEN <<Append(IF a # <<>> /\ a[1] = -2 THEN <<>> ELSE a, Wr(t)), b>> ELSE v
+    [] f = "wb" -> IF b # Gone /\ kind # "ptr" THEN <<a, Append(IF b # <<>> /\ b[1] = -2 THEN <<>> ELSE b, Wr(t))>> ELSE v
     [] f = "ca" -> IF a # Gone THEN <<IF kind = "ptr" THEN <<0>> ELSE <<>>, b>> ELSE v
     [] f = "cb" -> IF b # Gone THEN <<a, IF kind = "ptr" THEN <<0>> ELSE <<>>>> ELSE v
+    \* Variant only: la/lb wrap the value into a one-element list (<<-2>> \o bytes); oa/ob assign the handle the first
+    \* element of its own list; writing to a list value converts it to the (empty) string first
+    [] f = "la" -> IF a # Gone /\ kind = "variant" THEN << <<-2>> \o a, b >> ELSE v
+    [] f = "lb" -> IF b # Gone /\ kind = "variant" THEN << a, <<-2>> \o b >> ELSE v
+    [] f = "oa" -> IF a # Gone /\ kind = "variant" /\ a # <<>> /\ a[1] = -2 THEN << Tail(a), b >> ELSE v
+    [] f = "ob" -> IF b # Gone /\ kind = "variant" /\ b # <<>> /\ b[1] = -2 THEN << a, Tail(b) >> ELSE v
     [] f = "sw" -> IF a # Gone /\ b # Gone /\ kind = "ptr" THEN <<b, a>> ELSE v
     [] f = "da" -> <<Gone, b>>
     [] f = "db" -> <<a, Gone>>
